@@ -173,6 +173,63 @@ func boolFactsOfBlock(b *ssa.BasicBlock, ctx bool) []BoolFact {
 	if ctx {
 		if site := SoleCallSite(fn); site != nil {
 			out = append(out, boolFactsOfBlock(site.Block(), true)...)
+		} else if sites := pkgCallers(fn); len(sites) > 0 && !factsBusy[fn] && len(factsBusy) < 3 {
+			// an unexported helper called only at known sites of its package: what holds at every one of them
+			factsBusy[fn] = true
+			var common []BoolFact
+			for i, s := range sites {
+				fs := boolFactsOfBlock(s.Block(), true)
+				if i == 0 {
+					common = fs
+					continue
+				}
+				var keep []BoolFact
+				for _, f := range common {
+					for _, g := range fs {
+						if f.Subj == g.Subj && f.Val == g.Val {
+							keep = append(keep, f)
+							break
+						}
+					}
+				}
+				common = keep
+			}
+			delete(factsBusy, fn)
+			out = append(out, common...)
+		}
+	}
+	return out
+}
+
+var factsBusy = map[*ssa.Function]bool{}
+
+// PredicateCmpFacts: the comparisons implied by the boolean helper call cl having returned val, with the helper's
+// parameters replaced by the arguments of the call (one level of binding).
+func PredicateCmpFacts(cl *ssa.Call, val bool) []Fact {
+	callee := cl.Call.StaticCallee()
+	if callee == nil {
+		return nil
+	}
+	bind := func(v ssa.Value) ssa.Value {
+		v = Strip(v)
+		for i, p := range callee.Params {
+			if v == ssa.Value(p) && i < len(cl.Call.Args) {
+				return cl.Call.Args[i]
+			}
+		}
+		return v
+	}
+	var out []Fact
+	for _, bf := range predicateImplies(cl, -1, val, 0) {
+		if b, ok := bf.Subj.(*ssa.BinOp); ok {
+			switch b.Op {
+			case token.EQL, token.NEQ, token.LSS, token.LEQ, token.GTR, token.GEQ:
+				op := b.Op
+				if !bf.Val {
+					op = negate(op)
+				}
+				out = append(out, Fact{Op: op, X: bind(b.X), Y: bind(b.Y)})
+			}
 		}
 	}
 	return out
